@@ -128,7 +128,13 @@ class FakeState:
             return CHECKPOINT_NOT_FOUND
         return CheckpointedResult.create_from_operation(build(r))
 
-    def create_checkpoint(self, operation_update=None, is_sync=True):
+    def create_checkpoint(self, *args, **kwargs):
+        # bind exactly like the real method (names and defaults come from the real signature)
+        import inspect
+        from aws_durable_execution_sdk_python.state import ExecutionState
+        ba = inspect.signature(ExecutionState.create_checkpoint).bind(self, *args, **kwargs)
+        ba.apply_defaults()
+        operation_update, is_sync = ba.arguments["operation_update"], ba.arguments["is_sync"]
         oc = self.outcomes.pop(0) if self.outcomes else "ok"
         u = operation_update
         self.trace.append({"cp": u.action.value if u else None, "type": u.operation_type.value if u else None, "is_sync": bool(is_sync), "outcome": oc,
